@@ -57,7 +57,7 @@ def run(tier, replay=None):
     if not replay or is_ctor_replay:
         T.run_into(out, build, problems, PROP, tier, replay=replay)
     if not replay or not (is_elab_replay or is_ctor_replay or is_run_replay):
-        K.run_into(out, build, problems, PROP, tier, ["spec_C16", "spec_C09", "spec_C03_call"], gen_with_invs, 800, 15000, RULE_C, replay=replay)
+        K.run_into(out, build, problems, PROP, tier, ["spec_C16", "spec_C09", "spec_C03_call", "spec_C16_after"], gen_with_invs, 800, 15000, RULE_C, replay=replay)
     if not replay or is_elab_replay:
         E.run(out, build, problems, PROP, tier, ["spec_C03_selection"], E.default_gen, 600, 10000, RULE_E, replay=replay,
               known={"spec_C03_selection": "kf_C03_newstyle"})
